@@ -281,7 +281,7 @@ def run(ctx):
                 'level; distinct = distinct (conf, hint, object)')
     ctx.assumptions += ['override keys are classes or List[int]; Annotated/union keys and PEP 695 aliases are outside '
                         'the model', 'type[K] with a replacement that is not a class or union of classes is outside the model']
-    regenerate(ctx)
+    ctx.safe_regenerate(regenerate)
     proof_err = c01.prove_core(ctx, PROP)
     failures = 0
     try:
@@ -351,7 +351,7 @@ def run(ctx):
 def replay(ctx, path):
     with open(path) as f:
         body = json.load(f)
-    regenerate(ctx)
+    ctx.safe_regenerate(regenerate)
     case = body['record'].get('case')
     if case:
         obs = C.run_impl_cases([case])
